@@ -11,11 +11,13 @@ import (
 	"context"
 	"flag"
 	"fmt"
+	"github.com/risor-io/risor/importer"
 	"os"
 	"path/filepath"
 	"runtime"
 	"sort"
 	"strconv"
+	"strings"
 	"sync"
 	"sync/atomic"
 	"time"
@@ -69,6 +71,14 @@ var programs = []string{
 	`x.N = 5; x.Ints([1]) + x.Get().A`,
 }
 
+// programs that import a module with module-level state through an importer SHARED by all evaluations
+// (documented as safe: the importer caches compiled code): every evaluation must see its own module state
+var sharedImportPrograms = []string{
+	"import state\nfor i := 0; i < 150; i++ {\nstate.bump(gid)\n}\n[state.count, len(state.log), state.log[0] == gid, state.log[149] == gid, state.bump(gid)]",
+	"from state import bump, peek\nfor i := 0; i < 150; i++ {\nbump(gid)\n}\n[peek()[0], len(peek()[1]), peek()[1][0] == gid, peek()[1][149] == gid]",
+	"import state as s1\nimport lib\ns1.bump(gid)\ns1.bump(lib.twice(gid))\n[s1.count, s1.log, lib.base]",
+}
+
 func goid() int {
 	var buf [64]byte
 	n := runtime.Stack(buf[:], false)
@@ -89,6 +99,12 @@ func concWorker(req N) (resp N) {
 	dir := req["dir"].(string)
 	os.MkdirAll(dir, 0o755)
 	os.WriteFile(filepath.Join(dir, "lib.risor"), []byte("base := 100\nfunc twice(n) { return n * 2 }\n"), 0o644)
+	os.WriteFile(filepath.Join(dir, "state.risor"), []byte("count := 0\nlog := []\nfunc bump(tag) {\ncount += 1\nlog.append(tag)\nreturn count\n}\nfunc peek() { return [count, log] }\n"), 0o644)
+	gnames := risor.NewConfig(risor.WithGlobal("gid", 0)).GlobalNames()
+	sharedImporters := []importer.Importer{
+		importer.NewLocalImporter(importer.LocalImporterOptions{GlobalNames: gnames, SourceDir: dir}),
+		importer.NewFSImporter(importer.FSImporterOptions{GlobalNames: gnames, SourceFS: os.DirFS(dir)}),
+	}
 	var seq int64
 	var mu sync.Mutex
 	var events []N
@@ -123,6 +139,15 @@ func concWorker(req N) (resp N) {
 			}
 			return res.Inspect()
 		}
+		if pi > len(programs) {
+			k := pi - len(programs) - 1
+			res, err := risor.Eval(ctx, sharedImportPrograms[k%len(sharedImportPrograms)], risor.WithGlobal("gid", gi+1),
+				risor.WithImporter(sharedImporters[k/len(sharedImportPrograms)]))
+			if err != nil {
+				return "ERR " + err.Error()
+			}
+			return res.Inspect()
+		}
 		res, err := risor.Eval(ctx, programs[pi], risor.WithGlobal("x", &K1{N: gi}), risor.WithGlobal("y", K2{S: "s" + strconv.Itoa(gi)}),
 			risor.WithLocalImporter(dir))
 		if err != nil {
@@ -130,7 +155,7 @@ func concWorker(req N) (resp N) {
 		}
 		return res.Inspect()
 	}
-	np := len(programs) + 1
+	np := len(programs) + 1 + 2*len(sharedImportPrograms)
 	conc := make([][]string, g)
 	var wg sync.WaitGroup
 	start := make(chan struct{})
@@ -152,10 +177,13 @@ func concWorker(req N) (resp N) {
 	wg.Wait()
 	object.VerifSync = nil
 	// sequential reference
-	var diffs []any
+	var diffs, seqErrs []any
 	for gi := 0; gi < g; gi++ {
 		for pi := 0; pi < np; pi++ {
 			want := evalOne(gi, pi)
+			if strings.HasPrefix(want, "ERR ") {
+				seqErrs = append(seqErrs, N{"g": gi, "program": pi, "sequential": want})
+			}
 			for r := 0; r < rounds; r++ {
 				if got := conc[gi][r*np+pi]; got != want {
 					diffs = append(diffs, N{"g": gi, "program": pi, "concurrent": got, "sequential": want})
@@ -175,7 +203,7 @@ func concWorker(req N) (resp N) {
 	for pi := 0; pi < np; pi++ {
 		sample = append(sample, conc[0][pi])
 	}
-	return N{"k": "ok", "events": evs, "diffs": diffs, "evaluations": g * np * rounds, "sample": sample}
+	return N{"k": "ok", "events": evs, "diffs": diffs, "seq_errors": seqErrs, "evaluations": g * np * rounds, "sample": sample}
 }
 
 func main() {
